@@ -13,7 +13,8 @@ RULE = (
     "around the FSM timers, wait_for_reply None/False/True), gateway QoS mode None/False/True, gateway id; per "
     "transmission attempt a fate (echo lost | at delay d after k loop hops, reply none | at d | before the echo, "
     "duplicates) with d drawn from values around the running timer T (T-e, T, T+e: coincidences are constructed); "
-    "near-miss/foreign packets; transport faults (write raises, connection lost with/without exception, pause/resume). "
+    "near-miss/foreign packets; transport faults (write raises, connection lost with/without exception, pause/resume); sends that the application itself "
+    "abandons (its task cancelled 0..15 s after the call, as an outer wait_for does - such a caller is owed nothing, the others are judged as ever). "
     "Non-trivial = a lost/late echo or reply, >= 3 callers, a fault or foreign traffic, or an observed retransmission; "
     "distinct by the whole schedule. A sample (480 / 16k schedules restricted to distinct, non-impersonating commands and no "
     "transport faults) is also executed through Gateway.async_send_cmd on the full stack (real PortTransport on the in-memory "
